@@ -13,6 +13,7 @@ import (
 	"net"
 	"os"
 	"strconv"
+	"sync/atomic"
 	"time"
 	"unsafe"
 
@@ -104,9 +105,19 @@ func New(k *kernel.K) *Net { return &Net{K: k} }
 //go:norace
 func (n *Net) id() int { n.nextID++; return n.nextID }
 
+// hbRelease / hbAcquire carry the one ordering the simulator hands to the race
+// detector: what a sender did before sending happened before what the receiver
+// does after receiving. They are deliberately NOT //go:norace: in such
+// functions the compiler turns sync/atomic into plain instructions the
+// detector never sees.
+func hbRelease(p *uint32) { atomic.AddUint32(p, 1) }
+
+func hbAcquire(p *uint32) { atomic.LoadUint32(p) }
+
 // ---------------------------------------------------------------- streams
 
 type half struct {
+	hb       uint32 // happens-before carrier: written (release) by whoever sends or closes, read (acquire) by whoever receives - the ordering a real network gives, and the only one the simulator passes on to the race detector
 	id       int
 	buf      []byte
 	inflight int
@@ -143,6 +154,7 @@ type StreamConn struct {
 	Peer   *StreamConn
 
 	Reads      int
+	ReadTotal  int // octets handed to the reader so far
 	Closes     int
 	Accepted   bool     // handed to the server by Accept
 	Frozen     bool     // the application took the connection over (Hijack): the server must not touch it any more
@@ -244,6 +256,7 @@ func (o *readOp) Done(now time.Time) {
 		copy(o.p, c.rx.buf[:n])
 		c.rx.buf = c.rx.buf[n:]
 		o.n = n
+		c.ReadTotal += n
 	case c.rx.rst:
 		o.err = ErrReset
 	default:
@@ -268,6 +281,7 @@ func (c *StreamConn) Read(p []byte) (int, error) {
 	if r.Aborted {
 		return 0, ErrClosed
 	}
+	hbAcquire(&c.rx.hb) // what the peer did before sending (or closing) happened before what follows this read
 	return o.n, o.err
 }
 
@@ -317,6 +331,7 @@ func (o *writeOp) Done(now time.Time) {
 
 //go:norace
 func (c *StreamConn) Write(p []byte) (int, error) {
+	hbRelease(&c.tx.hb)
 	o := &writeOp{c: c, p: p}
 	r := &kernel.Req{Site: c.Role + ".stream.Write", Obj: c.ID, Op: o}
 	c.n.K.Block(r)
@@ -443,6 +458,7 @@ func sortInts(a []int) {
 //go:norace
 func (c *StreamConn) Close() error {
 	k := c.n.K
+	hbRelease(&c.tx.hb)
 	if c.n.CloseYields {
 		k.Yield(c.Role+".stream.Close", c.ID)
 	}
@@ -657,6 +673,7 @@ func (n *Net) Dial(l *Listener, keep bool) *StreamConn {
 
 // Datagram is one datagram on the simulated network, with its fate.
 type Datagram struct {
+	hb        *uint32 // see half.hb; allocated and released by the sender
 	ID        int
 	From, To  Addr
 	Data      []byte // as delivered (after link faults)
@@ -879,6 +896,9 @@ func (pc *PacketConn) ReadFrom(p []byte) (int, net.Addr, error) {
 	if o.err != nil {
 		return 0, nil, o.err
 	}
+	if o.d.hb != nil {
+		hbAcquire(o.d.hb)
+	}
 	return o.n, o.d.From, nil
 }
 
@@ -902,6 +922,7 @@ func (pc *PacketConn) Scribble(d *Datagram) bool {
 }
 
 type sendOp struct {
+	hb   *uint32 // released by the sender before it parks; the datagrams made from this send share it
 	e    *endpoint
 	p    []byte
 	to   *endpoint
@@ -930,6 +951,12 @@ func (o *sendOp) Done(now time.Time) {
 		return // no such peer: datagram vanishes
 	}
 	o.d = o.e.n.route(o.from, o.to, o.p, false, 0)
+	o.d.hb = o.hb
+	for _, c := range o.e.n.Dgrams[max(len(o.e.n.Dgrams)-2, 0):] {
+		if c.CopyOf == o.d.ID {
+			c.hb = o.hb // the link's duplicate carries the same ordering
+		}
+	}
 }
 
 //go:norace
@@ -940,7 +967,9 @@ func (pc *PacketConn) WriteTo(p []byte, addr net.Addr) (int, error) {
 			to = &c.endpoint
 		}
 	}
-	o := &sendOp{e: &pc.endpoint, p: p, to: to, from: pc.addr}
+	hb := new(uint32)
+	hbRelease(hb)
+	o := &sendOp{e: &pc.endpoint, p: p, to: to, from: pc.addr, hb: hb}
 	r := &kernel.Req{Site: "pc.WriteTo", Obj: pc.ID, Op: o}
 	pc.n.K.Block(r)
 	if r.Aborted {
@@ -1026,6 +1055,9 @@ func (c *DgramConn) Read(p []byte) (int, error) {
 	if r.Aborted {
 		return 0, ErrClosed
 	}
+	if o.d != nil && o.d.hb != nil {
+		hbAcquire(o.d.hb)
+	}
 	return o.n, o.err
 }
 
@@ -1037,7 +1069,9 @@ func (c *DgramConn) ReadFrom(p []byte) (int, net.Addr, error) {
 
 //go:norace
 func (c *DgramConn) Write(p []byte) (int, error) {
-	o := &sendOp{e: &c.endpoint, p: p, to: &c.srv.endpoint, from: c.addr}
+	hb := new(uint32)
+	hbRelease(hb)
+	o := &sendOp{e: &c.endpoint, p: p, to: &c.srv.endpoint, from: c.addr, hb: hb}
 	r := &kernel.Req{Site: "dg.Write", Obj: c.ID, Op: o}
 	c.n.K.Block(r)
 	if r.Aborted {
